@@ -534,6 +534,8 @@ def c09(ctx):
     # whatever the constant of the implementation is
     idle = [{"mode": "free", "W": w, "N": 800, "seed": 21 + w, "slow": 0.0, "drop_after": k, "idle_ms": 80}
             for w in ((1, 4) if q else (1, 2, 3, 4, 8)) for k in ((0, 6) if q else (0, 1, 6, 30))]
+    # a consumer that is slower than the workers, over hundreds of items, then idle and gone: the look-ahead stays bounded
+    idle += [{"mode": "free", "W": w, "N": 800, "seed": 31 + w, "slow": 1.0, "drop_after": 300, "idle_ms": 40} for w in ((4,) if q else (2, 4, 8))]
     pipe_judge(ctx, idle, "B-idle", C09_CLAUSES, mech=False)
     # many threads: the hook must already be in place when the first worker starts
     combos = [(1, 4, 0), (2, 5, 2), (4, 6, 5), (16, 64, 0), (32, 64, 0), (64, 200, 1)] if q else [(64, 300, 0), (48, 100, 0)] + [(w, n, f) for w in (1, 2, 4) for n in (3, 8) for f in (0, n // 2, n - 1)]
@@ -541,11 +543,14 @@ def c09(ctx):
     # already found the upstream exhausted (last items, fewer items than workers), or an earlier pipe of the same process has
     # run to completion (prior = 1): the hook must still end the process
     # prior = 2: between the earlier pipe and this one train_bpe has installed its own panic hook
+    # prior = 4: another pipe is built first and is still alive when the failing one is built; the older one is dropped first
+    # (not in the order of a stack), then the failing item is reached
     # prior = 3: the failing pipe is built first and partly consumed, then a one-thread pipe is built and consumed (it re-installs
     # the process-wide hook), then the first pipe is continued up to its failing item
-    combos += [(4, 2, 0, 60, 0), (3, 6, 4, 60, 0), (4, 9, 7, 60, 0), (2, 6, 3, 0, 1), (4, 3, 1, 40, 1), (2, 6, 3, 0, 2), (1, 4, 1, 0, 2), (4, 30, 22, 0, 3), (3, 30, 25, 30, 3)] if q else \
+    combos += [(4, 2, 0, 60, 0), (3, 6, 4, 60, 0), (4, 9, 7, 60, 0), (2, 6, 3, 0, 1), (4, 3, 1, 40, 1), (2, 6, 3, 0, 2), (1, 4, 1, 0, 2), (4, 30, 22, 0, 3), (3, 30, 25, 30, 3), (2, 8, 5, 0, 4), (3, 6, 2, 30, 4)] if q else \
         [(w, n, f, d, pr) for w in (1, 2, 3, 4, 8) for n in (2, 5, 9) for f in (0, n - 2, n - 1) for d in (0, 60) for pr in (0, 1, 2)] + \
-        [(w, 40, f, d, 3) for w in (2, 3, 4, 8) for f in (30, 39) for d in (0, 30)]
+        [(w, 40, f, d, 3) for w in (2, 3, 4, 8) for f in (30, 39) for d in (0, 30)] + \
+        [(w, n, f, d, 4) for w in (1, 2, 4) for n in (3, 9) for f in (0, n - 1) for d in (0, 40)]
     child_panic_runs(ctx, combos)
 
 
@@ -736,9 +741,10 @@ def tok_long(ctx, prefixes):
     whitespace characters, CR LF, blank lines; never at the end of the text, where BPE drops it by design)."""
     tab = ["ab", "ac", "gt", "ta", "cg", "acgt"]
     cases = [{"kind": "long", "pattern": pat, "repeat": rep, "tab": tab}
-             for (pat, rep) in (("ba", 35000), ("cgta", 17500), ("\t ab  cg\r\nta \n\nacgt", 3500), ("tacg", 17500), ("ab cg ta", 9000), ("ä", 33000))]
+             for (pat, rep) in (("ba", 35000), ("cgta", 17500), ("\t ab  cg\r\nta \n\nacgt", 3500), ("\r\na", 25000), ("tacg", 17500), ("ab cg ta", 9000), ("ä", 33000))]
+    # ("\r\na": CR LF lies across byte 65536 - one character, one group)
     cpath = ctx.path("cases-long.ndjson")
-    vlib.write_ndjson(cpath, cases if not ctx.quick() else cases[:3])
+    vlib.write_ndjson(cpath, cases if not ctx.quick() else cases[:4])
     tok_judge(ctx, cpath, "long", prefixes)
 
 
